@@ -62,7 +62,9 @@ def st_case(draw):
            # scan over k on ONE fitter object (public class nanite.fit.IndentationFitter) vs a new fitter per k
            "reuse_fitter": draw(st.sampled_from([False, False, True, False])),
            # k given by a second fit_model call on its own (after a k = 1 fit with all other settings)
-           "two_step": draw(st.sampled_from([False, True, False, False]))}
+           "two_step": draw(st.sampled_from([False, True, False, False])),
+           # no initial parameters: the library guesses them from the data
+           "auto_initial": draw(st.sampled_from([False, False, False, False, True, False, False, False]))}
     cp = curve["params"]["contact_point"]
     if rt == "absolute":
         lo = cp - depth * draw(st.floats(0.3, 1.2))
@@ -117,6 +119,31 @@ def do_fit(case, k):
     return idnt, rec, cp_init, pi
 
 
+def auto_initial(case, ctx, desc):
+    """no initial parameters given: the library's own guess of the contact point is a position on the measured
+    axis, the same for every k, and the optimiser starts from guess x k"""
+    curve, cfg = case["curve"], case["cfg"]
+    k = cfg["k"]
+    out = {}
+    for kk in (1.0, k):
+        idnt = fitgen.prep_curve(curve)
+        kw = dict(model_key=curve["model"], segment=cfg["segment"], weight_cp=cfg["weight_cp"], gcf_k=kk,
+                  x_axis="tip position", y_axis="force", range_type="absolute", range_x=[0, 0])
+        with fitgen.MinimizeRecorder() as rec, ctx.no_raise("fit-raises", dict(desc, k=str(kk), initial="auto")) as guard:
+            idnt.fit_model(**kw)
+        if not guard.ok or not rec.calls:
+            return
+        out[kk] = (float(idnt.fit_properties["params_initial"]["contact_point"].value),
+                   float(rec.calls[0]["params"]["contact_point"][0]))
+    ctx.event("auto_initial_compared")
+    g1, gk = out[1.0][0], out[k][0]
+    ctx.check(g1 == gk, "initial-cp-not-in-measured-units", dict(desc, initial="auto"),
+              f"guessed initial contact point {gk!r} with k={k}, {g1!r} with k=1 (same data)")
+    got = out[k][1]
+    ctx.check(abs(got - gk * k) <= 1e-12 * abs(gk * k) + 1e-300, "initial-cp-not-in-measured-units",
+              dict(desc, initial="auto"), f"optimiser started from {got!r}, guess {gk!r} times k={k} is {gk * k!r}")
+
+
 def reuse_fitter(ctx, idnt, k2, desc):
     """a fitter that has fitted with one k and is given another k fits like a new fitter with that k"""
     from nanite.fit import IndentationFitter
@@ -155,6 +182,9 @@ def check_case(case, ctx):
                            "two_step" if cfg.get("two_step") else "one_call",
                            f"segment{cfg['segment']}"])
     desc = {"range_type": cfg["range_type"]}
+    if cfg.get("auto_initial"):
+        auto_initial(case, ctx, desc)
+        return
     with ctx.no_raise("fit-raises", dict(desc, k="1")):
         i1, rec1, cpi1, _ = do_fit(case, 1.0)
     with ctx.no_raise("fit-raises", dict(desc, k="k")):
